@@ -179,6 +179,7 @@ class World:
             self.event_store = SqliteEventStore(self.url, create_tables=False)
             self.recorder = configure_event_sourcing(self.event_store)
             self.bus = get_event_bus()
+            self.bus.subscribe("verif-monitor", self._on_bus_event)
         self.registry = vtask.make_registry()
         cfg = QueueProcessorConfig(dedup_trust_negative_cache=self.trust_negative)
         self.processor = QueueProcessor(
@@ -214,6 +215,14 @@ class World:
         self.commits.append((idx, t, row, self.current.get(t)))
         for fn in self.commit_listeners:
             fn(self, idx, conn)
+
+    def _on_bus_event(self, event) -> None:
+        """SYNC subscriber: is the event visible to an independent connection right now?"""
+        with self._side_lock:
+            row = self.side.execute("SELECT sequence FROM events WHERE event_id = ?", (event.event_id,)).fetchone()
+        self.bus_log.append(
+            {"thread": threading.current_thread().name, "sequence": event.sequence, "type": event.event_type.value, "event_id": event.event_id, "visible": row is not None, "in_txn": bool(self.store._get_connection().in_transaction)}
+        )
 
     # ----------------------------------------------------------------- ledger
     def iteration_of(self, stage_id: str) -> int:
